@@ -115,10 +115,8 @@ type Term struct {
 	val  uint64 // const value (masked) / fp bits
 	aux  int
 	name string
-	// lazily computed
-	vars   []int32 // sorted ids of OpVar terms below (nil = not computed)
-	varsOK bool
-	sent   int32 // solver generation in which define-fun was emitted (per-solver map used instead when >1 solver)
+	// lazily computed: sorted ids of OpVar terms below
+	varsP atomic.Pointer[[]int32]
 }
 
 func (t *Term) IsConst() bool { return t.op == OpConst }
@@ -1020,8 +1018,8 @@ func mkFToInt(a *Term, bitsN int, signed bool) *Term {
 // ---------------------------------------------------------------- variables of a term
 
 func (t *Term) Vars() []int32 {
-	if t.varsOK {
-		return t.vars
+	if p := t.varsP.Load(); p != nil {
+		return *p
 	}
 	var out []int32
 	switch t.op {
@@ -1047,8 +1045,7 @@ func (t *Term) Vars() []int32 {
 			out = mergeSorted(out, []int32{h})
 		}
 	}
-	t.vars = out
-	t.varsOK = true
+	t.varsP.Store(&out)
 	return out
 }
 
